@@ -18,7 +18,7 @@ func (p *AggregatorPlanner) process(ctx *shared.PlannerContext,
 	in chan []shared.LogEntry, ops aggregatorPlannerOps) (chan []shared.LogEntry, error) {
 
 	streamLen := ctx.To.Sub(ctx.From).Nanoseconds() / p.Duration.Nanoseconds()
-	if streamLen > 4000000000 {
+	if streamLen <= 0 || streamLen > 1000000 {
 		return nil, &shared.NotSupportedError{Msg: "stream length is too large. Please try increasing duration."}
 	}
 
